@@ -150,6 +150,9 @@ def eval_repr(it, text):
     for n in ast.walk(tree):
         if not isinstance(n, (ast.Expression, ast.Call, ast.Name, ast.Load, ast.Constant, ast.BinOp, ast.Add)):
             return ("syntax", "unexpected %s in repr" % type(n).__name__)
+    missing = sorted({n.id for n in ast.walk(tree) if isinstance(n, ast.Name) and n.id not in env})
+    if missing:
+        return ("raise", "NameError (fmtfuncs defines no %s)" % ", ".join(missing))
     try:
         return ("ok", it.folder.expr(tree.body, env))
     except FoldedRaise as e:
